@@ -31,7 +31,7 @@ BOUNDS = {
     "energy_eV": [2e4, 3e5],
     "semiangle_cutoff_mrad": "0.5 angular pixel .. 3x the grid's maximum angle",
     "tilt_mrad": [-40, 40],
-    "aberration_sets": 10,
+    "aberration_sets": 11,
     "probe_cases": {"quick": "covering array + 24 random", "thorough": "covering array x 6 seeds + 600 random"},
 }
 EXHAUSTIVE = False
@@ -84,6 +84,8 @@ def _aber(idx, r):
         return out
     if idx == 8:  # distribution-valued (ensemble axes), unit weights
         return {"defocus": {"values": [u(-100, 0), u(0, 100), u(100, 200)]}, "Cs": {"values": [u(-1e5, 0), u(0, 1e5)]}}
+    if idx == 10:  # a focal spread sampled far into the tails (6 sigma): weights spanning eight orders of magnitude
+        return {"C10": {"values": [-90.0, -45.0, 0.0, 45.0, 90.0], "weights": [1.5e-8, 1.1e-2, 1.0, 1.1e-2, 1.5e-8]}, "C30": u(1e4, 1e5)}
     # idx == 9: weighted distribution (Gaussian-like weights, not normalised to one)
     return {"C10": {"values": [-60.0, -20.0, 20.0, 60.0], "weights": [0.135, 0.8, 0.8, 0.135]}, "C12": u(5, 40)}
 
@@ -141,12 +143,12 @@ def _probe_case(sel, seed, k):
                 aperture=ap, aber_set=int(sel["aber"]), aber=_aber(sel["aber"], r), tilt=_tilt(TILTS[sel["tilt"]], r),
                 positions=_positions(POSITIONS[sel["pos"]], extent, r), lazy=lazy, max_batch=mb,
                 rebuild=bool(r.random() < 0.25),
-                features=(["aberration_dist"] if sel["aber"] in (8, 9) else []) + (["tilt_dist"] if sel["tilt"] >= 5 else []))
+                features=(["aberration_dist"] if sel["aber"] in (8, 9, 10) else []) + (["tilt_dist"] if sel["tilt"] >= 5 else []))
 
 
 def cases(tier, seed):
     axes = dict(grid=list(range(len(GRIDS))), energy=list(range(5)), cutoff=list(range(5)), soft=[0, 1],
-                aperture=list(range(len(APERTURES))), aber=list(range(10)), tilt=list(range(len(TILTS))),
+                aperture=list(range(len(APERTURES))), aber=list(range(11)), tilt=list(range(len(TILTS))),
                 pos=list(range(len(POSITIONS))), lazy=list(range(len(LAZY))))
     nseeds, nrand = (1, 24) if tier == "quick" else (6, 600)
     k = 0
